@@ -344,6 +344,12 @@ def schema_trees(tier, rng=None):
                                                             ("f", fixed("F3", 2)), ("again", ref("a.L3"))])),
                                          ("l3b", ref("a.L3")), ("e2", ref("a.E3"))]))
     add("ns_b_null_b", rec("a.b.M1", [("m2", rec("M2", [("m3", enum("a.b.M3", ["Q"])), ("m4", rec("a.M4", [("x", ref("a.b.M3"))]))]))]))
+    # a type used twice AFTER a sibling that allocates nodes of its own: when its definition is moved to the later use, the
+    # first (forward) reference is neither the first child of its parent nor held by the most recently reserved node
+    add("fwd_after_sibling", rec("a.T", [("a", arr(prim("int"))), ("b", enum("a.E", ["S", "T"])), ("c", ref("a.E"))]))
+    add("fwd_in_union_second", rec("a.T", [("x", rec("a.In", [("m", mp(prim("string")))])), ("u", un(prim("null"), enum("a.E", ["S"]))), ("e", ref("a.E"))]))
+    add("fwd_two_types", rec("T", [("a", rec("A", [("x", mp(prim("string")))])), ("b", arr(fixed("F", 3))), ("c", ref("F")), ("d", un(prim("null"), enum("E", ["Q"]))),
+                                   ("e", arr(ref("E")))]))
     if rng is not None:
         from . import pyavro
         for i in range(12 if tier == "quick" else 120):
